@@ -120,7 +120,7 @@ func (q *vfQ) Write(p []byte) (int, error) {
 	q.tap = append(q.tap, p[:n]...)
 	for !q.badTap && len(q.tap)-q.parsed >= 4 {
 		ln := int(binary.BigEndian.Uint32(q.tap[q.parsed:]))
-		if ln == 0 || ln > 256*1024 {
+		if ln == 0 || ln > vfMaxTapFrame {
 			q.badTap = true
 			break
 		}
